@@ -227,6 +227,8 @@ func checkC06(p *Prog, r *Report) {
 		return strings.Contains(key, "Operations") || strings.Contains(key, "AddFunctionType")
 	})
 	c06Rebuild(p, r)
+	r.Rule("R8", "a list field whose slice header a getter hands out (callers iterate it without the lock) is never modified in place: no element store, no copy into it, no in-place library routine (slices.DeleteFunc, sort.Slice, …); removal builds a new slice")
+	escapedListsImmutable(p, BuildLockset(p, "spine", "model"), r, "R8", map[string]bool{"DeviceRemote": true, "EntityRemote": true})
 	r.Rule("R7", "every hand-written element-wise comparison of two slices of one type compares their lengths for equality: entity addresses are never matched by prefix (shared lint, C20-R6)")
 	sliceEqualityHelpers(p, r, "R7")
 	r.Rule("R6", "the per-entity clean-ups called by the cascade remove that entity's entries and nothing else: keep ⇔ ¬(client device ∧ client entity equal) (retain truth tables, shared with C10-R1)")
